@@ -62,7 +62,7 @@ import (
 //       effective key / nonce, every partial signature verifies under PartialSignatureVerifier, the
 //       aggregate verifies under the x-only key (with the corrected or the uncorrected aggregate R).
 //   (d) H_bip340_batch_{1,2,3}: u signatures, the i-th response shifted by delta_i (possibly 0):
-//       BatchVerify accepts iff sum a_i*delta_i = 0 with a_1 = 1 and a_2.. the coefficients it drew
+//       BatchVerify accepts iff sum a_i*delta_i = 0 (one obligation per direction) with a_1 = 1 and a_2.. the coefficients it drew
 //       (the harness reads them from a second reader at the same position): all unaltered accepted,
 //       exactly one altered rejected; lengths / prng / nil key checks; nil signature element.
 //   (e) serialisation round trips, x-only encodings, canonical-encoding and length checks.
@@ -597,7 +597,11 @@ func verifBatch(u int, individually bool) (berr error, comb *k256.Scalar, nonZer
 			panic(err)
 		}
 		nonZero += verifB2U(!deltas[i].IsZero())
-		sigs[i], pks[i], msgs[i] = &Signature{E: c.e, R: c.bigR, S: c.sig.S.Add(deltas[i])}, c.pk, c.msg
+		shifted := c.sig.S.Add(deltas[i])
+		// Verify and BatchVerify refuse a zero response outright (an s + delta = 0 is a separate,
+		// trivially rejected case: H_bip340_verify_degenerate)
+		verifAssume(!shifted.IsZero())
+		sigs[i], pks[i], msgs[i] = &Signature{E: c.e, R: c.bigR, S: shifted}, c.pk, c.msg
 		scheme = c.scheme
 		if individually {
 			allOK &= verifB2U(c.verifier().Verify(sigs[i], pks[i], msgs[i]) == nil)
@@ -618,7 +622,16 @@ func verifBatch(u int, individually bool) (berr error, comb *k256.Scalar, nonZer
 		}
 		comb = comb.Add(a.Mul(deltas[i]))
 	}
-	verifAssert("batch.accepted_iff_sum_of_coefficient_times_shift_is_zero", (berr == nil) == comb.IsZero())
+	// "accepted iff sum a_i*delta_i = 0", one obligation per direction (the verdict is concrete on a
+	// path): a counterexample of the first needs only the shifts (harness inputs, applied natively to
+	// real signatures: e.g. delta_1 = -delta_0 against an implementation whose coefficients coincide)
+	// and replays natively; one of the second may rest on the value of a coefficient, which only the
+	// model can choose.
+	if berr == nil {
+		verifAssert("batch.accepted_only_if_sum_of_coefficient_times_shift_is_zero", comb.IsZero())
+	} else {
+		verifAssert("batch.rejected_only_if_sum_of_coefficient_times_shift_is_nonzero", !comb.IsZero())
+	}
 	verifAssert("batch.rejection_is_verification_failure", berr == nil || errors.Is(berr, signatures.ErrVerificationFailed))
 	verifAssert("batch.all_unaltered_accepted", verifAny(nonZero != 0, berr == nil))
 	verifAssert("batch.exactly_one_altered_rejected", verifAny(nonZero != 1, berr != nil))
@@ -674,7 +687,8 @@ func verifPanics(f func()) (p bool) {
 }
 
 // a nil element in the signature slice: an error is expected, as Verify gives for a nil signature.
-// FINDING (current tree): BatchVerify dereferences the nil signature and panics.
+// (Found with this harness: BatchVerify dereferenced the nil signature and panicked; repaired in /repo
+// by "fix: bip340 BatchVerify refuses nil or zero signature elements like Verify does".)
 func H_bip340_batch_nil_signature() {
 	dB, kB, msg := verifBytes(32), verifBytes(32), verifBytes(3)
 	c := verifMakeSig(dB, kB, msg, verifBool())
